@@ -13,8 +13,11 @@ CHECKS = {
     "C14": dict(
         text="Contract proof on the real source: AliasRewriter.visit(e) = subst(R, [], e) for every node kind (spec written from the "
              "statement with a ghost alias table R), frame clause (no write to self / input), identity lemma for a non-matching map; "
-             "discharged for all trees and all tables by z3 via the modular/inductive rule. Known findings are excluded input regions.",
-        note=COMMON_NOTE + "Alias table R: keys identifiers/paths, targets parser-produced trees (established by __init__ through the parser). "
+             "discharged for all trees and all tables by z3 via the modular/inductive rule; constructor contract init.table (replacements = "
+             "{parse(k): parse(v)}, no further field a handler reads). Known findings are excluded input regions. A bounded family (labelled, "
+             "not counted) runs the real constructor and visitor on 16 filters x every reference and its near misses as the alias key.",
+        note=COMMON_NOTE + "Alias table R: keys identifiers/paths, targets parser-produced trees (init.table, relative to the parser). "
+             "A handler reading a constructor-set field outside the object model is undecided, never a violation. "
              "Inverse-bijection corollary not mechanised.",
         technique="contracts + VC generation over the real AST handlers (pyvc) discharged by z3; ghost map; loop invariant",
         design="8 C14"),
@@ -91,7 +94,9 @@ CHECKS.update({
         text="Contract proof per handler per path, 3 dialects: the symbolic template each handler returns is read with the dialect's grammar: "
              "well-formed, tree mirrors the node (operator, operand order), every child translation binds tightly enough for its position "
              "(side conditions discharged by z3 against the children's promised strengths), promised strength of the result, data holes, alias "
-             "only in identifiers, each call argument exactly once. Unbounded in depth by the modular rule.",
+             "only in identifiers, each call argument exactly once; a sign printed directly in front of a child's text needs the child's "
+             "promised first character not to fuse with it (`--` comment), and every handler proves its own first-character promise. "
+             "Unbounded in depth by the modular rule.",
         note="Reader soundness (operator-precedence compositionality) and the dialect operator tables are assumed; typed-grammar preconditions on "
              "argument kinds; recorded findings are excluded regions.",
         technique="contracts + symbolic templates parsed by a Pratt reader with holes; side conditions by z3",
@@ -102,7 +107,8 @@ CHECKS.update({
     "C13": dict(
         text="Contract proof per handler per path of AstToODataVisitor: the symbolic template is read with the OData grammar (precedence of C05, "
              "left-associative binaries so right operands must bind strictly tighter, (x,) for singleton lists, doubled quotes): well-formed, "
-             "tree(r) = t, operand side conditions by z3, promised strength; identifiers / paths / calls / lambdas against their exact token "
+             "tree(r) = t, operand side conditions by z3, promised strength, no sign fused with a following digit (`-1`, `-2018-01-01` are "
+             "signed literals); identifiers / paths / calls / lambdas against their exact token "
              "shapes. parse(render t) = t then follows relative to C05/C06, and with it the one-step fixpoint.",
         note="The OData reader is the grammar whose implementation is proved/assumed in C05/C06 (SLY driver, re semantics); reader soundness assumed.",
         technique="contracts + symbolic templates parsed by a Pratt reader with holes (OData grammar); side conditions by z3",
@@ -127,7 +133,9 @@ CHECKS.update({
         text="Contract proof per ORM backend (Django Q, SQLAlchemy ORM, SQLAlchemy Core) x (node kind | built-in function/arity) x path of "
              "the real handler: every occurrence of a filter value (.val of a literal node, of a child, of a call argument, or anything "
              "computed from it) in the returned expression term lies inside a binder argument (Value / literal / GEOSGeometry) [rel.out]; "
-             "the term's skeleton is the same on all paths that differ only in conditions on values [rel.path, 2-safety].",
+             "the term's skeleton is the same on all paths that differ only in conditions on values [rel.path, 2-safety]; frame condition "
+             "cfg.compile-hooks: the backend modules add no compile-time rendering of their own (@compiles, as_sql-style methods other than "
+             "the contracted / pass-through ones) and never request literal_binds / literal_execute.",
         note="The step from 'inside a binder' to 'bound parameter in compiled SQL' is an assumed contract of Django / SQLAlchemy, exercised "
              "natively by a bounded family (33 templates x 3 assignments x 3 backends; labelled bounded, not counted). Boolean literals are "
              "outside the quantifier. Django / SQLAlchemy-ORM visit_CollectionLambda not under contract.",
